@@ -14,9 +14,9 @@ C14.time   signature times use RFC 1982 ordering (shared with C17.use).
 """
 import re
 
-from mirlib import BranchFacts, strip, deep_strip, show, walk, const_value
+from mirlib import closures_created_in, BranchFacts, strip, deep_strip, show, walk, const_value
 from rulelib import (
-    bool_facts, facts_at, fmt_path, must_pass, names_in_term, outcome_facts, relations, return_assignments,
+    bool_facts, cyclic_blocks, dominating_edges, facts_at, fmt_path, must_pass, names_in_term, outcome_facts, relations, return_assignments,
     succeeded_calls,
 )
 
@@ -53,6 +53,8 @@ def run(ctx):
     rule_nsec(ctx, F)
     rule_panic(ctx, F)
     rule_time(ctx, F)
+    rule_anchor(ctx, F)
+    rule_nsec3(ctx, F)
 
 
 def rule_sig(ctx, F):
@@ -112,6 +114,36 @@ def rule_cache(ctx, F):
             for _, t in cb.calls():
                 if (t["fn"] or "").endswith("ComposeRecordData::compose_canonical_rdata") and t["targs"]:
                     hashed.add(t["targs"][0].split("<")[0].split("::")[-1])
+    # provenance: which buffer does each digest read, and what was composed into that buffer
+    def buf_id(term):
+        for s in walk(term):
+            if s[0] == "local":
+                return ("local", s[1])
+            if s[0] == "call" and s[1] and re.search(r"Vec::<.*>::new$|::with_capacity$|Default::default$", s[1]):
+                return ("new", s[5])
+        return None
+    composed = {}   # buffer id -> record types composed into it
+    for bi, cb, cops in closures_created_in(F, b):
+        types = {t["targs"][0].split("<")[0].split("::")[-1] for _, t in cb.calls()
+                 if (t["fn"] or "").endswith("ComposeRecordData::compose_canonical_rdata") and t["targs"]}
+        if not types:
+            continue
+        for o in cops:
+            bid = buf_id(b.term_of_operand(o))
+            if bid:
+                composed.setdefault(bid, set()).update(types)
+    digested = set()
+    n_upd = 0
+    for bb, t in b.calls():
+        if (t["fn"] or "").endswith("DigestBuilder::update") and len(t["args"]) >= 2:
+            n_upd += 1
+            bid = buf_id(b.term_of_operand(t["args"][1]))
+            digested |= composed.get(bid, set())
+    ctx.ob(R, b, "the digests in the cache key read the buffers the RRSIG and the DNSKEY were composed into",
+           {"Rrsig", "Dnskey"} <= digested,
+           "the signature-cache key digests %d buffer(s) holding %s; it must digest both the canonical RRSIG RDATA "
+           "(signature included) and the DNSKEY RDATA — otherwise a forged signature for a once-validated RRset is "
+           "answered from the cache as valid" % (n_upd, sorted(digested)))
     ctx.ob(R, b, "cache key covers the signed data", has_sd or len(ops) >= 3,
            "the signature cache key does not contain the signed data")
     ctx.ob(R, b, "cache key covers the RRSIG RDATA including the signature", "Rrsig" in hashed and n_digest >= 2,
@@ -237,3 +269,121 @@ def rule_time(ctx, F):
                    "core::cmp::PartialOrd" in res or res == "" or "Timestamp" in res, "signature time comparison resolves to %s" % res, b.where(bb))
             ok += 1
     ctx.ob(R, b, "expiration and inception are both compared", ok >= 2, "found %d Timestamp comparisons" % ok)
+
+
+# ---------------------------------------------------------------------------
+# trust anchors: a DNSKEY is accepted as the anchor only on full equality
+# (DNSKEY anchors) or a digest match (DS anchors)
+# ---------------------------------------------------------------------------
+
+def rule_anchor(ctx, F):
+    R = "C14.anchor"
+    ctx.floor(R, 6)
+    hk = F.one_body(r"^dnssec::validator::context::has_key$")
+    if ctx.anchor(R, "validator::context::has_key", hk):
+        somes = [r for r in return_assignments(hk) if r[2] == "Some"]
+        ctx.anchor(R, "Some(key) return of has_key", bool(somes), hk.where())
+        for rb, si, kind, term in somes:
+            fs = bool_facts(hk, rb, F)
+
+            def eq_on(pred):
+                for tt, vv in fs:
+                    if tt[0] == "call" and re.search(r"PartialEq(<.*>)?::eq$|::eq$", tt[1] or "") and vv is True and pred(tt):
+                        return True
+                return False
+            whole = eq_on(lambda tt: any("rdata::dnssec::Dnskey" in a for a in (tt[4] or ())[:2]))
+            ctx.ob(R, hk, "anchor DNSKEY equals the candidate DNSKEY (whole record data)", whole,
+                   "has_key accepts a DNSKEY as the configured trust anchor without comparing the complete DNSKEY "
+                   "record data (flags, protocol, algorithm, public key): a different key with the same algorithm and "
+                   "a colliding 16-bit key tag becomes a trust anchor", hk.where(rb))
+            ctx.ob(R, hk, "owner names equal", eq_on(lambda tt: "owner" in show(tt)),
+                   "has_key does not compare the owner names", hk.where(rb))
+            ctx.ob(R, hk, "class equal", eq_on(lambda tt: "class" in show(tt)),
+                   "has_key does not compare the class", hk.where(rb))
+    fk = F.one_body(r"^dnssec::validator::context::find_key_for_ds$")
+    if ctx.anchor(R, "validator::context::find_key_for_ds", fk):
+        somes = [r for r in return_assignments(fk) if r[2] == "Some"]
+        ctx.anchor(R, "Some(key) return of find_key_for_ds", bool(somes), fk.where())
+        for rb, si, kind, term in somes:
+            fs = bool_facts(fk, rb, F)
+            dig = any(tt[0] == "call" and re.search(r"::eq$", tt[1] or "") and vv is True and
+                      any(s[0] == "call" and (s[1] or "").endswith("::digest") and len(s[3]) >= 2 for s in walk(tt)) and
+                      any(s[0] == "call" and (s[1] or "").endswith("::digest") and len(s[3]) == 1 for s in walk(tt))
+                      for tt, vv in fs)
+            ctx.ob(R, fk, "DS digest equals the digest of the candidate DNSKEY", dig,
+                   "find_key_for_ds returns a key without the DS digest comparison", fk.where(rb))
+            ok_dig = any(o == "success" and any(s[0] == "call" and (s[1] or "").endswith("::digest") and len(s[3]) >= 2 for s in walk(deep_strip(subj)))
+                         for subj, o in outcome_facts(fk, rb, F))
+            ctx.ob(R, fk, "digest computation succeeded", ok_dig or dig,
+                   "find_key_for_ds returns a key on a path where computing the digest failed", fk.where(rb))
+            alg = any(tt[0] == "call" and re.search(r"::eq$", tt[1] or "") and vv is True and "algorithm" in show(tt) for tt, vv in fs)
+            ctx.ob(R, fk, "algorithm equal", alg, "find_key_for_ds does not compare the algorithm", fk.where(rb))
+
+
+# ---------------------------------------------------------------------------
+# NSEC3 closest-encloser walk: the "parent exists" flag is re-decided for
+# every name
+# ---------------------------------------------------------------------------
+
+def rule_nsec3(ctx, F):
+    """nsec3_for_not_exists walks from the signer name towards the target.
+    `DoesNotExist(ce)` may be returned only if the *immediately preceding*
+    name was proven to exist, so the flag that records this must be assigned
+    on every iteration over the names (true on a match, false otherwise):
+    no path around the per-name loop may leave it untouched."""
+    R = "C14.nsec3"
+    ctx.floor(R, 2)
+    bs = [b for p, b in F.bodies.items() if re.match(r"^dnssec::validator::nsec::nsec3_for_not_exists::\{closure#0\}$", p)]
+    if not ctx.anchor(R, "nsec3_for_not_exists", len(bs) == 1):
+        return
+    b = bs[0]
+    # the flag: the bool local whose truth dominates the DoesNotExist result
+    flag = None
+    site = None
+    for bi in sorted(b.reachable_blocks()):
+        for st in b.blocks[bi]["s"]:
+            if st[0] == "=" and st[2][0] == "agg" and st[2][1][0] == "adt" and st[2][1][1].endswith("Nsec3NXState") \
+                    and st[2][1][2] == "DoesNotExist":
+                site = bi
+                for (sw, lab) in dominating_edges(b, bi):
+                    tsw = b.blocks[sw]["t"]
+                    if tsw["ty"] == "bool" and tsw["d"][0] in ("c", "m") and len(tsw["d"][1]) == 1:
+                        loc = tsw["d"][1][0]
+                        for _ in range(3):
+                            ds = b.defs().get(loc, [])
+                            if len(ds) == 1 and ds[0][0] == "stmt" and ds[0][3][0] == "use" and ds[0][3][1][0] in ("c", "m") \
+                                    and len(ds[0][3][1][1]) == 1:
+                                loc = ds[0][3][1][1][0]
+                            else:
+                                break
+                        consts = [d for d in b.defs().get(loc, []) if d[0] == "stmt" and d[3][0] == "use" and d[3][1][0] == "k"]
+                        if len(consts) >= 2 and lab != ("v", 0):
+                            flag = loc
+    if not ctx.anchor(R, "closest-encloser-exists flag guarding DoesNotExist", flag is not None and site is not None, b.where()):
+        return
+    ctx.ob(R, b, "DoesNotExist only with an existing closest encloser", True, nontrivial=True,
+           detail="flag local _%d is true on the edge dominating the result" % flag, where=b.where(site))
+    assigns = set()
+    for bi in b.reachable_blocks():
+        for st in b.blocks[bi]["s"]:
+            if st[0] == "=" and st[1] == [flag]:
+                assigns.add(bi)
+    # the per-name loop: the outermost iterator `next` on a cycle
+    nexts = [bb for bb, t in b.calls() if re.search(r"Iterator::next$", t["fn"] or "") and bb in cyclic_blocks(b)]
+    # ... restricted to loops that contain an assignment of the flag
+    def same_loop(n):
+        r = b.reach_from(n)
+        return any(a in r and n in b.reach_from(a) for a in assigns)
+    nexts = [n for n in nexts if same_loop(n)]
+    outer = [n for n in nexts if all(n == m or b.dominates(n, m) for m in nexts)]
+    if not ctx.anchor(R, "per-name loop of nsec3_for_not_exists", len(outer) == 1, b.where()):
+        return
+    head = outer[0]
+    reach = set()
+    for s, lab in b.succs(head):
+        if s not in assigns:
+            reach |= b.reach_from(s, removed_blocks=assigns)
+    ctx.ob(R, b, "every iteration over the names re-decides the flag", head not in reach,
+           "nsec3_for_not_exists can go on to the next name without assigning the closest-encloser-exists flag: "
+           "a name for which no NSEC3 matched or covered is treated as existing, and a denial with the "
+           "intermediate NSEC3 left out is accepted as secure", b.where(head))
